@@ -15,7 +15,7 @@
 EXTENDS Integers, Sequences, FiniteSets, TLC
 
 Families == {"network", "dirnetwork", "geonetwork", "interacting", "resnetwork", "rp", "rn", "crp", "jrp",
-             "jrn", "climate", "climatedata", "surrogates", "visibility", "tsonis", "hilbert", "isrn"}
+             "jrn", "climate", "climatedata", "surrogates", "visibility", "tsonis", "hilbert", "isrn", "ccn", "escn"}
 
 Init0(f) ==
   IF f \in {"network", "dirnetwork", "interacting", "visibility"} THEN [A |-> 1, W |-> 0, LA |-> 0]
@@ -23,7 +23,7 @@ Init0(f) ==
   ELSE IF f = "resnetwork" THEN [R |-> 1]
   ELSE IF f \in {"rp", "rn"} THEN [MODE |-> "threshold", P |-> 1]
   ELSE IF f \in {"crp", "jrp", "jrn"} THEN [MODE |-> "threshold", P |-> 1]
-  ELSE IF f = "climate" THEN [MODE |-> "threshold", P |-> 1, NL |-> 0]
+  ELSE IF f \in {"climate", "ccn", "escn"} THEN [MODE |-> "threshold", P |-> 1, NL |-> 0]
   ELSE IF f = "tsonis" THEN [MODE |-> "threshold", P |-> 1, NL |-> 0, WO |-> 0]
   ELSE IF f = "hilbert" THEN [MODE |-> "threshold", P |-> 1, NL |-> 0, DIR |-> 1]
   ELSE IF f = "isrn" THEN [MODE |-> "threshold", P |-> 1]
@@ -56,6 +56,8 @@ Alphabet(f) ==
   ELSE IF f \in {"jrp", "jrn"} THEN RpMut \cup {<<"set_fixed_threshold_std", 1>>, <<"set_fixed_threshold_std", 2>>}
   ELSE IF f = "crp" THEN RpMut
   ELSE IF f = "isrn" THEN RpMut
+  \* two-layer and event-based climate networks: the similarity-network mutators
+  ELSE IF f \in {"ccn", "escn"} THEN ClimMut
   \* data-driven climate networks: the similarity itself is recomputed by set_winter_only / set_directed
   ELSE IF f = "tsonis" THEN ClimMut \cup {<<"set_winter_only", 0>>, <<"set_winter_only", 1>>}
   ELSE IF f = "hilbert" THEN ClimMut \cup {<<"set_directed", 0>>, <<"set_directed", 1>>}
